@@ -96,6 +96,18 @@ class Gen:
         if depth <= 0 or r.random() < 0.2:
             return self.leaf()
         k = r.random()
+        if r.random() < 0.12 and self.ndiv < self.max_div:
+            # an operator with one constant operand of a special shape (power of two, its negation, all ones, a low mask):
+            # the shapes for which an implementation may take a shortcut (shift instead of division, mask instead of modulo)
+            self.ndiv += 1
+            sh = r.choice([1, 1, 2, 3, 4, 8, 16, 31, 64, 128, 160, 254, 255])
+            v = r.choice([1 << sh, (1 << sh) % M256, M256 - (1 << sh), (1 << sh) - 1, M256 - 1])
+            self.consts.add(v)
+            self.consts.add(M256 - v)
+            c = ("c", v)
+            other = self.expr(depth - 1) if r.random() < 0.5 else ("in", r.randrange(self.nin))
+            op = r.choice(BIN_DIV + BIN_DIV + ["MUL", "AND", "SHL", "SHR", "SAR", "SIGNEXTEND", "BYTE"])
+            return (op, other, c) if r.random() < 0.7 else (op, c, other)
         if k < 0.62:
             return (r.choice(BIN_CHEAP), self.expr(depth - 1), self.expr(depth - 1))
         if k < 0.74 and self.ndiv < self.max_div:
@@ -139,6 +151,9 @@ def input_pool(g: Gen, rnd: random.Random) -> list[int]:
     for c in g.consts:
         for d in (-1, 0, 1):
             pool.add((c + d) % M256)
+    # small negative numbers (signed division and remainder round towards zero)
+    for v in (1, 2, 3, 5, 7, 9, 100):
+        pool.add(M256 - v)
     for _ in range(6):
         pool.add(rnd.getrandbits(256))
         pool.add(rnd.getrandbits(rnd.choice([4, 8, 16, 64, 128, 200])))
@@ -379,7 +394,49 @@ def fam_state(rnd: random.Random, ninputs: int = 10):
     return prog, inputs
 
 
+def fam_shortcut(rnd: random.Random, ninputs: int = 14):
+    """Four results `op(x, c)` / `op(c, x)` for a calldata word x and a constant c of a special shape - power of two, its
+    negation, a low mask, all ones - with the division family over-represented: the operand shapes for which an
+    implementation may replace the operator (a shift for a division, a mask for a remainder, a shift for a product).
+    Inputs sit around multiples of the constant on both sides of zero (signed operators round towards zero)."""
+    g = Gen(rnd, nin=2)
+    body, exprs, vals = [], [], set()
+    n = 4
+    for k in range(n):
+        sh = rnd.choice([1, 1, 2, 2, 3, 4, 8, 16, 31, 64, 128, 160, 254, 255])
+        v = rnd.choice([1 << sh, 1 << sh, M256 - (1 << sh), (1 << sh) - 1, M256 - 1])
+        op = rnd.choice(BIN_DIV * 3 + ["MUL", "AND", "SHL", "SHR", "SAR", "SIGNEXTEND", "BYTE", "EXP"])
+        if op == "EXP":
+            v = rnd.choice([0, 1, 2, 3])
+        x = ("in", rnd.randrange(g.nin))
+        if rnd.random() < 0.25:
+            x = (rnd.choice(["ADD", "SUB", "NOT", "MUL"]), x, ("in", rnd.randrange(g.nin)))[: 2 if rnd.random() < 0.3 else 3]
+            if len(x) == 2:
+                x = ("NOT", x[1])
+        e = (op, x, ("c", v)) if rnd.random() < 0.75 or op == "EXP" else (op, ("c", v), x)
+        exprs.append(e)
+        vals.add(v)
+        body += compile_expr(e) + [("PUSH", 32 * k), "MSTORE"]
+    code = assemble(body + epilogue(n))
+    names = [f"cd{i}" for i in range(g.nin)]
+    pool = {0, 1, M256 - 1, 2**255, 2**255 - 1, 2**255 + 1}
+    for v in vals:
+        for m in (1, 2, 3):
+            for d in (-1, 0, 1):
+                pool.add((m * v + d) % M256)
+                pool.add((-(m * v) + d) % M256)
+    for v in (2, 3, 5, 7, 9, 100, 255, 256, 257):
+        pool.add(v)
+        pool.add(M256 - v)
+    pool = sorted(pool)
+    inputs = [{nm: rnd.choice(pool) for nm in names} for _ in range(ninputs - 2)]
+    inputs += [{nm: rnd.getrandbits(256) for nm in names}, {nm: M256 - 1 - rnd.getrandbits(rnd.choice([3, 8, 64])) for nm in names}]
+    prog = Prog(accounts={TARGET: code}, calldata=[Sym(nm, 256) for nm in names], name="shortcut", meta={"exprs": repr(exprs)})
+    return prog, inputs
+
+
 FAMILIES = {
+    "shortcut": fam_shortcut,
     "arith": fam_arith,
     "control": fam_control,
     "memory": fam_memory,
